@@ -188,6 +188,13 @@ def step (s : St) (line : String) : St × String :=
     let i : Cmds.CommitIn := ⟨entriesIn ix, (if sn == "none" then none else some (entriesIn sn)), opt br, anyB == "1",
       opt cl, opt cg, intOf unix, intOf off, unhex msg⟩
     (s, resOut (fun r => hexOut r.1) (Cmds.commitCmd sha1Fn i))
+  | ["cmd.reflog", lg] =>
+    -- `goit reflog`: the listing `Reflog.Show` prints (position, 7 hex digits, kind, message), newest first
+    (s, if lg == "none" then "err" else
+        match Reflog.parse (unhex lg) with
+        | some rs => "ok " ++ listOut ((Reflog.listing rs).map fun (i, h7, k, m) =>
+            s!"{i}:" ++ String.ofList (h7.map (fun c => Char.ofNat c.toNat)) ++ ":" ++ recKindOut k ++ ":" ++ hexOut m)
+        | none => "err")
   | ["cmd.log", anyB, hd, k, objs] =>
     let tbl : List (Bytes × Bytes) := (if objs == "-" then [] else objs.splitOn ";").filterMap fun x =>
       match x.splitOn "=" with
